@@ -57,6 +57,11 @@ func genCase(r *vf.Run, stage uint64, idx int) *tcase {
 	rng := r.RNG(stage, uint64(idx), 1)
 	c := &tcase{stage: stage, idx: idx}
 	c.chunk = rng.Pick(1, 7, 64, 64, 512, 512, 4096, 4096, 65536)
+	if stage == 2 && c.chunk == 65536 {
+		// race build: every allocation of a large buffer also clears its shadow memory; a
+		// 64 KiB-chunk case costs minutes there and adds nothing race-wise
+		c.chunk = 4096
+	}
 	o := gen.DefaultOpts(int64(c.chunk))
 	o.MaxEntries = rng.Pick(4, 12, 24, 24, 40)
 	if c.chunk == 65536 {
@@ -250,6 +255,12 @@ func drawEnv(rng *prng.R, c *tcase, blobLen int64, totalOps, maxG int) *envSpec 
 	default: // defaults (10/10)
 	}
 	dc.SyncAdd = rng.Bool()
+	if cs > 0 && blobLen/cs > 1500 {
+		// Harness limit: with SyncAdd=false every committed cache entry is written by its own
+		// goroutine; thousands of them blocked in file system calls need thousands of OS
+		// threads and the child dies in pthread_create (RLIMIT_AS / thread limits).
+		dc.SyncAdd = true
+	}
 	d = append(d, fmt.Sprintf("lru=%d fds=%d direct=%v syncadd=%v", dc.MaxLRUCacheEntry, dc.MaxCacheFds, dc.Direct, dc.SyncAdd))
 	// passthrough: the daemon forces Direct when it is on (cmd/containerd-stargz-grpc/main.go);
 	// a *os.File can only come from a directory cache.
@@ -264,7 +275,7 @@ func drawEnv(rng *prng.R, c *tcase, blobLen int64, totalOps, maxG int) *envSpec 
 			e.cfg.MergeBufferSize = 400 << 20
 		case 3, 4:
 			e.cfg.MergeBufferSize = int64(rng.Pick(1, c.chunk/2+1))
-		case 5, 6, 7:
+		case 5, 6, 7, 8:
 			e.cfg.MergeBufferSize = int64(c.chunk) * int64(rng.Pick(1, 2, 3))
 		default:
 			e.cfg.MergeBufferSize = int64(c.chunk)*int64(rng.Pick(1, 2)) + int64(rng.Pick(1, c.chunk/2+1, 36))
